@@ -82,8 +82,8 @@ class VttCue:
     return self._end
 
   def set_line(self, line: int):
-    """Sets the WebVTT line cue setting (in whole percent)"""
-    self._line = line
+    """Sets the WebVTT line cue setting (in whole percent), which lies between 0 and 100"""
+    self._line = min(max(line, 0), 100)
 
   def get_line(self) -> Optional[int]:
     """Return the WebVTT line cue setting (in whole percent)"""
